@@ -111,7 +111,46 @@ def _dynamic_attr_names(call, modules):
         return None
     params = [p.arg for p in fn.args.posonlyargs + fn.args.args]
     if a.id not in params:
-        return None
+        # a loop variable over a constant table: `for clause in ('where', 'having')`, `for attr, is_list in _CLAUSES` (module-level literal)
+        consts = {}
+        for m in modules or repo.all_repo_modules():
+            try:
+                for st in repo.module_ast(m).body:
+                    if isinstance(st, ast.Assign) and len(st.targets) == 1 and isinstance(st.targets[0], ast.Name):
+                        try:
+                            consts.setdefault(st.targets[0].id, ast.literal_eval(st.value))
+                        except Exception:
+                            pass
+            except (FileNotFoundError, SyntaxError):
+                continue
+        names = set()
+        found_loop = False
+        for lp in ast.walk(fn):
+            if not isinstance(lp, (ast.For, ast.comprehension)):
+                continue
+            tgt, it = lp.target, lp.iter
+            pos = None
+            if isinstance(tgt, ast.Name) and tgt.id == a.id:
+                pos = -1
+            elif isinstance(tgt, (ast.Tuple, ast.List)):
+                for i_, x in enumerate(tgt.elts):
+                    if isinstance(x, ast.Name) and x.id == a.id:
+                        pos = i_
+            if pos is None:
+                continue
+            found_loop = True
+            try:
+                items = ast.literal_eval(it)
+            except Exception:
+                items = consts.get(it.id) if isinstance(it, ast.Name) else None
+            if not isinstance(items, (tuple, list)):
+                return None
+            for el in items:
+                v = el if pos == -1 else (el[pos] if isinstance(el, (tuple, list)) and len(el) > pos else None)
+                if not isinstance(v, str):
+                    return None
+                names.add(v)
+        return names if found_loop else None
     pos = params.index(a.id)
     names = set()
     found = False
